@@ -164,7 +164,7 @@ func genSeqOps(g *Rand, fl seqFlavour, nslots, n int, thorough bool) []SOp {
 			//           join leave sub unsub pub reg unreg call yield inverr cancel
 			w = []int{2, 2, 10, 5, 12, 0, 0, 0, 0, 0, 0}
 		case seqC03:
-			w = []int{2, 2, 1, 0, 1, 9, 4, 10, 7, 3, 0}
+			w = []int{2, 2, 1, 0, 1, 9, 4, 10, 7, 3, 0, 1} // (a few meta calls: departure by kill is a departure too)
 		case seqC05:
 			w = []int{3, 6, 4, 2, 4, 5, 2, 7, 3, 2, 3, 4}
 		case seqC18:
@@ -399,7 +399,7 @@ func runSeq(c *Ctx, fl seqFlavour) {
 	g := c.Gen
 	strict := g.Chance(1, 4)
 	allowDisclose := g.Chance(2, 3)
-	metaKill := fl == seqC05 || fl == seqC18
+	metaKill := fl == seqC05 || fl == seqC18 || fl == seqC03
 	rc := &router.RealmConfig{URI: "r1", StrictURI: strict, AllowDisclose: allowDisclose, AnonymousAuth: true, EnableMetaKill: metaKill,
 		MetaStrict:     fl == seqC18 && g.Chance(1, 3),
 		Authenticators: []auth.Authenticator{&StaticAuth{Roles: seqRoles}}}
